@@ -120,7 +120,7 @@ def run(c):
               "reference lookup evaluated by the OS on the same tree; media types by a core table and metamorphically per extension; both entry points compared on their common domain; real binary. "
               "Class = (lookup branch, size class, name class, extension, query form, entry point); non-trivial = anything but a plain small file.")
     rng = c.rng
-    ntrees = 10 if c.quick else 40
+    ntrees = 10 if c.quick else 150
     for cat in ("file", "dir-index", "html-fallback", "nothing (404)", "symlinked file", "symlinked dir", "empty file", "file > buffer size", "engine B responses"):
         c.need(cat)
     ext_types = {}
